@@ -4,7 +4,10 @@
 (b) every scenario of that model is concretised to text and run through the real CLI (replay of the model's scenario space);
     the real lexer's token kinds are compared with the scenario's (drift report);
 (c) every prefix of rendered well-formed files and random edits of them through `generate go`, `generate typescript`
-    and `debug` under a deadline; an expiry is re-run twice alone before it counts."""
+    and `debug` under a deadline; an expiry is re-run twice alone before it counts;
+(d) small scope, exhaustively: EVERY sequence of up to 4 (thorough: 5) fragments from an alphabet of 40 grammar-file
+    fragments, once separated by blanks and once fused, through the real front end + table construction in-process
+    (parser.ParseAndBuild) under a deadline; an expiry is confirmed twice in fresh processes."""
 import json
 import os
 import shutil
@@ -56,6 +59,29 @@ def run(ctx, replay):
     ctx.cov["rule"] = ("inputs = byte strings: every prefix of rendered grammar files (a few KB each, all five variants' files), random "
                        "1-3 place edits of them, systematic injection of 18 unusual characters (non-ASCII digits/letters/spaces, BOM, invalid UTF-8, NUL, CR) at token starts, and the concretised token-kind scenarios of LexParse.tla; each input is run through "
                        "`generate go`, `generate typescript` and `debug`; non-trivial = distinct inputs")
+    if not replay:
+        eo = ctx.sub("enum")
+        k = ctx.pick(4, 5)
+        r = ctx.vh(["enumterm", "-out", eo, "-len", k, "-workers", 16, "-deadline", "5s"], timeout=3400)
+        log(r.stdout.strip().splitlines()[-1])
+        e = json.load(open(os.path.join(eo, "enum.json")))
+        for a in e["anomalies"]:
+            key = "hang:inprocess:%d:%s" % (a["index"], a["tight"])
+            d = ctx.replay_dir(key)
+            shutil.copy(a["file"], os.path.join(d, "input.y"))
+            json.dump({"property": "C13", "kind": "hang", "mode": "go", "source": "enumeration"}, open(os.path.join(d, "meta.json"), "w"))
+            txt = open(a["file"], "rb").read()
+            ctx.violation(key, d, "ParseAndBuild (the front end and table construction behind `generate` and `debug`) %s on input %r" % (a["note"], txt))
+        ctx.cov["evaluations"] += e["inputs"]
+        ctx.cov["enumeration"] = {kk: e[kk] for kk in ("k", "atoms", "sequences", "inputs", "outcomes", "max_micro", "unconfirmed_expiries")}
+        ctx.cov["enumeration"]["child_crashes"] = e["crashes"][:5]
+        if e["unconfirmed_expiries"] > 5:
+            raise Inconclusive("%d deadline expiries that did not reproduce alone (machine overloaded?)" % e["unconfirmed_expiries"])
+        want = sum(e["atoms"] ** i for i in range(k + 1)) * 2
+        if e["stopped_early"] and not e["anomalies"]:
+            raise Inconclusive("enumeration stopped early without a confirmed hang")
+        if not e["stopped_early"] and e["inputs"] < want - 2 * (len(e["crashes"]) + len(e["anomalies"]) + e["unconfirmed_expiries"]) - 2:
+            raise Inconclusive("enumeration incomplete: %d of %d inputs" % (e["inputs"], want))
     if not replay and t["inputs"] < ctx.pick(8000, 100000):
         raise Inconclusive("too few inputs: %d" % t["inputs"])
     return ctx.finish("model_checking")
